@@ -235,3 +235,30 @@ def dft_set(tier):
     if tier == 'thorough':
         o += [dft_obl(1, 2, dbl=1, simd=1), dft_obl(3, 1, dbl=1), dft_obl(2, 3), dft_obl(8, 1), dft_obl(1, 1, dbl=1, dftlen=64), dft_obl(1, 5, dbl=1), dft_obl(3, 4, dbl=1, simd=1)]
     return o
+
+
+def fifo_obls():
+    o = [Obl(name='fifo_reserve_shape%d' % sh, src='fifo_lemma.c', defs=['-DVF_OP=0', '-DVF_SHAPE=%d' % sh], unwind=66, timeout=300, ndebug=False,
+             desc='fifo.h fifo_reserve: %s; buffered bytes preserved (symbolic data, symbolic index), invariant, pointer and size of the reserved region' % d,
+             bounds='allocation 64 bytes, FIFO_MIN lowered to 16 (includer-definable), one concrete offset shape per obligation; data and inspected index symbolic',
+             funcs=['fifo.h:fifo_reserve', 'fifo.h:fifo_occupancy', 'fifo.h:fifo_clear'])
+         for sh, d in enumerate(['fits', 'compaction (memmove)', 'growth (realloc)', 'compaction then growth'])]
+    o.append(Obl(name='fifo_read_trim', src='fifo_lemma.c', defs=['-DVF_OP=1'], unwind=66, timeout=300, ndebug=False,
+                 desc='fifo.h fifo_read / fifo_trim_by from any state: refused when more than buffered, else oldest n items once; trim removes the newest',
+                 bounds='offsets <= 16 items symbolic, item size 4 or 8', funcs=['fifo.h:fifo_read', 'fifo.h:fifo_trim_by', 'fifo.h:fifo_occupancy']))
+    return o
+
+
+def kern_imp_obl(hn, engine='cr32.c'):
+    defs = ['-DVF_HN=%d' % hn, '-DVF_ENGINE_C="%s"' % engine] + (['-DVF_SIMD_MODELS'] if engine.endswith('s.c') else [])
+    return Obl(name='kern_impulse_%s_h%d' % (engine.replace('.c', ''), hn), src='kern_imp.c', defs=defs, unwind=70, timeout=300,
+               desc='half-band kernel h%d of %s on a one-hot input window at a symbolic position: the output is exactly the table coefficient the filter definition pairs with that sample' % (hn, engine),
+               bounds='all %d window positions (symbolic); other samples +0.0 (partial sums exact)' % (4 * hn + 8),
+               stubs=['SSE shuffles / scalar-lane ops modelled as exact lane operations'] if engine.endswith('s.c') else [],
+               funcs=['cr-core.c:h%d' % hn, 'half-coefs.h:half_fir_coefs_%d' % hn, 'half-fir.h'])
+
+
+def kern_imp_set(tier):
+    o = [kern_imp_obl(7), kern_imp_obl(8), kern_imp_obl(9), kern_imp_obl(8, 'cr32s.c'), kern_imp_obl(9, 'cr32s.c')]
+    o += [kern_imp_obl(h, 'cr64.c') for h in ((7, 10, 13) if tier == 'quick' else (7, 8, 9, 10, 11, 12, 13))]
+    return o
